@@ -141,7 +141,7 @@ func (w *world) opLine(in opIn) string {
 // only linearizable under relaxation X is reported with a signature naming X.
 type relax struct {
 	recvErr   bool // a receive may answer `err`; the blob may or may not have been stored
-	fetchZero bool // a fetch may answer bytes that are not the blob's (zeroed/short data of a blob under removal)
+	fetchZero bool // a fetch may answer zero bytes of the blob's length (data of a blob under removal)
 	stale     bool // fetch/stat may still answer a blob that was removed (never-received blobs stay absent)
 }
 
@@ -164,7 +164,8 @@ func (w *world) model(rx relax) porcupine.Model {
 			if rx.recvErr && in.Kind == "recv" && o == "err" {
 				return []interface{}{s, nx}
 			}
-			if rx.fetchZero && in.Kind == "fetch" && (strings.HasPrefix(o, "bytes ") || o == "sizemismatch" || o == "err") {
+			if rx.fetchZero && in.Kind == "fetch" && len(w.pool[in.K].Val) > 0 &&
+				o == "bytes "+hk.Hex(make([]byte, len(w.pool[in.K].Val))) {
 				return []interface{}{s}
 			}
 			if rx.stale && (in.Kind == "fetch" || in.Kind == "stat") && s.ever&(1<<uint(in.K)) != 0 &&
@@ -232,13 +233,35 @@ func (w *world) splitEnums(recs []rec) ([]rec, bool) {
 	return out, changed
 }
 
-type verdict struct {
-	res   porcupine.CheckResult
-	order []int  // strict linearisation (indices into recs) when res == Ok
-	class string // for an illegal history: the relaxation that explains it, or "unexplained"
+// the known anomaly classes, each tied to the component that causes it
+const (
+	clsRecvErr     = "files-receive-errs-under-concurrent-remove"
+	clsFetchZeroed = "diskpacked-fetch-sees-data-zeroed-by-remove"
+	clsStaleCache  = "proxycache-stale-cache-after-concurrent-remove"
+	clsEnumScan    = "enumerate-scan-not-atomic"
+)
+
+func sigOf(class string) string { return "nonlin:" + class }
+
+// applicable lists, per store kind, the anomaly classes its components can cause; a history of a kind
+// that needs any other relaxation is `unexplained` (a new failure).
+var applicable = map[string][]string{
+	"mem":        {},
+	"index":      {},
+	"files":      {clsRecvErr, clsEnumScan},
+	"localdisk":  {clsRecvErr, clsEnumScan},
+	"diskpacked": {clsFetchZeroed, clsEnumScan},
+	"shard":      {clsFetchZeroed, clsEnumScan},
+	"proxy":      {clsFetchZeroed, clsStaleCache, clsEnumScan},
 }
 
-func (w *world) check(recs []rec, timeout time.Duration) verdict {
+type verdict struct {
+	res     porcupine.CheckResult
+	order   []int    // strict linearisation (indices into recs) when res == Ok
+	classes []string // for an illegal history: the smallest set of known anomaly classes that explains it; nil = unexplained
+}
+
+func (w *world) check(recs []rec, kind string, timeout time.Duration) verdict {
 	res, info := porcupine.CheckOperationsVerbose(w.model(relax{}), toPorc(recs), timeout)
 	v := verdict{res: res}
 	if res == porcupine.Ok {
@@ -253,28 +276,77 @@ func (w *world) check(recs []rec, timeout time.Duration) verdict {
 	if res != porcupine.Illegal {
 		return v
 	}
-	try := func(rx relax, split bool) bool {
+	app := applicable[kind]
+	undecided := false
+	type cand struct {
+		cls []string
+	}
+	var cands []cand
+	for size := 1; size <= len(app); size++ {
+		for mask := 1; mask < 1<<len(app); mask++ {
+			var c []string
+			for i, a := range app {
+				if mask&(1<<i) != 0 {
+					c = append(c, a)
+				}
+			}
+			if len(c) == size {
+				cands = append(cands, cand{c})
+			}
+		}
+	}
+	for _, c := range cands {
+		rx := relax{}
+		split := false
+		for _, a := range c.cls {
+			switch a {
+			case clsRecvErr:
+				rx.recvErr = true
+			case clsFetchZeroed:
+				rx.fetchZero = true
+			case clsStaleCache:
+				rx.stale = true
+			case clsEnumScan:
+				split = true
+			}
+		}
 		rs := recs
+		m := w.model(rx)
 		if split {
 			rs, _ = w.splitEnums(recs)
+			m.Partition = partitionByBlob // no enumerate is left: linearizability is local to each blob
 		}
-		return porcupine.CheckOperationsTimeout(w.model(rx), toPorc(rs), timeout) == porcupine.Ok
+		switch porcupine.CheckOperationsTimeout(m, toPorc(rs), timeout/4) {
+		case porcupine.Ok:
+			v.classes = c.cls
+			return v
+		case porcupine.Unknown:
+			undecided = true
+		}
 	}
-	switch {
-	case try(relax{recvErr: true}, false):
-		v.class = "recv-err"
-	case try(relax{fetchZero: true}, false):
-		v.class = "fetch-garbage-under-remove"
-	case try(relax{}, true):
-		v.class = "enum-not-atomic"
-	case try(relax{stale: true}, false):
-		v.class = "stale-read-after-remove"
-	case try(relax{recvErr: true, fetchZero: true}, true):
-		v.class = "mixed(recv-err,fetch-garbage,enum-not-atomic)"
-	case try(relax{recvErr: true, fetchZero: true, stale: true}, true):
-		v.class = "mixed(+stale-read)"
-	default:
-		v.class = "unexplained"
+	if undecided {
+		v.res = porcupine.Unknown // neither explained nor shown inexplicable within the time limit
 	}
 	return v
+}
+
+// partitionByBlob splits a history without enumerates into one history per blob.
+func partitionByBlob(history []porcupine.Operation) [][]porcupine.Operation {
+	m := map[int][]porcupine.Operation{}
+	var keys []int
+	for _, op := range history {
+		in := op.Input.(opIn)
+		if in.Kind == "enum" || in.Kind == "claims" || in.Kind == "query" {
+			return [][]porcupine.Operation{history}
+		}
+		if _, ok := m[in.K]; !ok {
+			keys = append(keys, in.K)
+		}
+		m[in.K] = append(m[in.K], op)
+	}
+	out := make([][]porcupine.Operation, 0, len(keys))
+	for _, k := range keys {
+		out = append(out, m[k])
+	}
+	return out
 }
